@@ -3,6 +3,8 @@ from . import executor_contracts as X
 
 
 def run(chk):
+    from .common import per_instance_state_of_modules
+    per_instance_state_of_modules(chk, "C09.classes.state_is_per_instance", ['concurrency.models', 'concurrency.executor', 'config'])   # no object created in a class body: instances share no mutable state through the class
     chk.assume("A: floats are mathematical reals (failure percentage f/total*100 compared exactly)")
     chk.assume("S: collections.Counter counts occurrences; ThreadPoolExecutor runs at most max_workers tasks at once")
     chk.trust("python semantics of the stated subset as encoded by pyvc (DESIGN 2.3)")
